@@ -93,6 +93,10 @@ func runHistory(c *Case, w *hworld, p hplan, sigp string, localCheck bool) bool 
 }
 
 func runC02(c *Case) {
+	if c.Index%40 == 39 {
+		c02KeyOnly(c)
+		return
+	}
 	r := c.R
 	nw := []int{1, 2, 2, 3, 3, 4}[r.Intn(6)]
 	nkeys := r.Range(2, 6)
@@ -200,4 +204,57 @@ func runC02(c *Case) {
 		}
 		c.Res.Sample = map[string]interface{}{"writers": nw, "keys": nkeys, "entries_per_node": epn, "history": l, "model_rows": want}
 	}
+}
+
+// c02KeyOnly: a table that has only its key column. INSERT @1, DELETE @2,
+// INSERT @5, then a DELETE stamped @3 (older than the last INSERT): the row
+// stays - on the writer itself and after another writer's copy is merged.
+func c02KeyOnly(c *Case) {
+	r := c.R
+	st := newStore()
+	defer dropStore(st)
+	a, b := OpenConn("ka"), OpenConn("kb")
+	defer a.Close()
+	defer b.Close()
+	ta, tb := tname(c, "ka"), tname(c, "kb")
+	epn := []int{4096, 2}[r.Intn(2)]
+	for _, x := range []struct {
+		cn *Conn
+		t  string
+		cl string
+	}{{a, ta, "ka"}, {b, tb, "kb"}} {
+		if err := x.cn.Create(TableSpec{Name: x.t, Cols: "k PRIMARY KEY", Store: st.Name, Client: x.cl, Prefix: "ko", EPN: epn}); err != nil {
+			c.Violate("C02:key-only:create", err.Error(), nil)
+			return
+		}
+	}
+	nk := r.Range(1, 6)
+	var trace []string
+	do := func(cn *Conn, ts int, q string) {
+		cn.SetWriteTime(ts)
+		err := cn.Exec(q)
+		trace = append(trace, fmt.Sprintf("@%d %s -> %v", ts, q, err))
+	}
+	for k := 1; k <= nk; k++ {
+		do(a, 1, fmt.Sprintf("insert into %s values (%d)", ta, k))
+		do(a, 2, fmt.Sprintf("delete from %s where k=%d", ta, k))
+		do(a, 5, fmt.Sprintf("insert into %s values (%d)", ta, k))
+	}
+	victim := 1 + r.Intn(nk)
+	if r.Bool() {
+		do(a, 3, fmt.Sprintf("delete from %s where k=%d", ta, victim))
+	} else {
+		// the stale delete comes from the other writer, which has seen the rows
+		b.Exec("select s3db_refresh('" + tb + "')")
+		do(b, 3, fmt.Sprintf("delete from %s where k=%d", tb, victim))
+		a.Exec("select s3db_refresh('" + ta + "')")
+		trace = append(trace, "refresh")
+	}
+	c.Count("key_only_tables", 1)
+	rows, err := a.Rows("select k from " + ta + " order by k")
+	if err != nil || len(rows) != nk {
+		c.Violate("C02:key-only:older-delete-wins", fmt.Sprintf("a DELETE stamped older than the row's last INSERT removed the row from a table with only a key column: %d rows inserted, read %v (%v)", nk, rows, err), trace)
+		return
+	}
+	c.NonTrivial(fmt.Sprint("keyonly", nk, victim, epn))
 }
